@@ -163,8 +163,11 @@ static const scen_t SC[] = {
 #define R(i) static void run##i(void) { run_scen(&SC[i]); }
 R(0) R(1) R(2) R(3) R(4) R(5) R(6) R(7) R(8) R(9) R(10)
 static cs_scenario_t scenarios[] = {
-    { "leaf_done_vs_appmsg", run0, 0 }, { "leaf_done_vs_down_false", run1, 0 }, { "root_done_vs_last_up", run2, 0 }, { "root_send_done_vs_appmsg", run3, 0 },
-    { "interior_done_vs_last_up", run4, 0 }, { "interior_done_vs_down_false", run5, 0 }, { "two_workers_last_tasks", run6, 0 }, { "worker_spawn_vs_worker_done", run7, 0 },
-    { "release_vs_appmsg", run8, 0 }, { "two_workers_vs_down_false", run9, 0 }, { "ready_vs_child_up", run10, 0 },
+    { "leaf_done_vs_appmsg", run0, 0 }, { "leaf_done_vs_down_false", run1, 0 }, { "root_done_vs_last_up", run2, 0 },
+    { "interior_done_vs_last_up", run4, 0 }, { "release_vs_appmsg", run8, 0 }, { "ready_vs_child_up", run10, 0 },
+#ifndef E1_QUICK     /* the quick tier runs the six scripts above, the thorough tier all eleven */
+    { "root_send_done_vs_appmsg", run3, 0 }, { "interior_done_vs_down_false", run5, 0 }, { "two_workers_last_tasks", run6, 0 },
+    { "worker_spawn_vs_worker_done", run7, 0 }, { "two_workers_vs_down_false", run9, 0 },
+#endif
 };
-int main(int argc, char **argv) { return cs_main(argc, argv, "C11", scenarios, NSC, NULL); }
+int main(int argc, char **argv) { return cs_main(argc, argv, "C11", scenarios, (int)(sizeof(scenarios) / sizeof(scenarios[0])), NULL); }
